@@ -423,6 +423,7 @@ package testscript
 //@   ensures !neg ==> matchP(re, my_text) && (n > 0 ==> countP(re, my_text) == n)
 
 // ---- C04: isolation and clean-up ----
+//@ bounded C04: TestVerifBoundedWaitOne
 //@ property C04: (*TestScript).setup, writeFile, (*TestScript).run, run$3, (*TestScript).waitBackground, (*TestScript).cmdExec, cmdExec$1, waitOrStop, (*TestScript).exec, (*TestScript).execBackground, (*TestScript).Defer, Defer$1, RunT, RunT$1, RunT$1$2, removeAll
 
 // Defer: the new chain runs f first and the old chain afterwards, and the old chain is
